@@ -75,6 +75,17 @@ CHECKS = {
         '(representation independence of rounding); C17_read_uses_exact_value and C17_limits: reading and upper/lower/precision are the affine images of the exact unscaled quantities. Tie: formats up to 16 bits, all modes, dyadic scales (incl. negative) and biases, float / Python-int / int-array / int-list carriers, '
         'the premise is checked per case with exact rationals; val, get_val, limits, flags, best-size construction compared with Spec and model.',
    design='7/C17', technique='Coq proof (affine wrapper reduces to C01) + differential correspondence'),
+
+ 'C11': dict(
+   text='Proof (over bit lists, EVERY word length): bin() has n_word digits that decode to code mod 2^n_word (C11_bin_is_pattern); the parser strbin2int (sign extension, two\'s complement decode) restores the code from that pattern (C11_bin_roundtrip); '
+        'hex() has ceil(n_word/4) digits decoding to the same pattern and strhex2int restores the code (C11_hex_digits, C11_hex_roundtrip); character <-> bit round trip; value mode reduces to C05 idempotence. np.binary_repr / format(\'X\') / bin(int) are modelled primitives. '
+        'Tie: every code of every format up to 6/8 bits and boundary/random codes up to 256 bits: bin (with dot and prefixes), hex, base_repr strings verbatim against an independent rendering and the model; round trips by constructor / call / set_val / from_bin in raw and value mode; 1-D and 2-D arrays.',
+   design='7/C11', technique='Coq proof of codec round trips on bit lists + differential correspondence on strings'),
+ 'C13': dict(
+   text='Proof (EVERY word length, via Z.testbit / mod 2^n): the raw value produced by & | ^ (Python-integer bit ops on the n-bit images, utils.twos_complement_repr) is the in-range code of x\'s format whose pattern is the AND/OR/XOR of the operand patterns, '
+        'and it is stored with no flag (C13_and_or_xor, C13_pattern_of_result); ~ (C13_not), ~~x = x, ~x = -x - LSB for signed x, rejection of different word lengths. Tie: all code pairs of small words with every signedness combination, wide words '
+        '{16,31,32,33,63,64,65,100,128}, Fxp and integer-mask operands on either side, De Morgan on the implementation, malformed stream.',
+   design='7/C13', technique='Coq proof (bit-level, all widths) + differential correspondence'),
 }
 NA_REASON = 'check not built yet (work in progress; see DESIGN.md section 10 order of work)'
 def main():
